@@ -151,6 +151,27 @@ def build_stub(m: Dict[str, Any], **db_kwargs):
     return db, m2
 
 
+def build_alias_namesake(m: Dict[str, Any], **db_kwargs):
+    """built through the API, then one table is given an ALIAS that is the name of another table of the public schema
+    (Doc!WellFormed keeps such documents out of the generated ones; the library allows them and Doc!Locate says what an
+    address means then: the full name first).  Returns the database and the content it now has (m itself if no pair fits)."""
+    import copy
+    import re
+    db = build(m, **db_kwargs)
+    taken = {t['alias'] for t in m['tables'] if t['alias']} | {'%s.%s' % (t['schema'] or 'public', t['name']) for t in m['tables']}
+    for b, tb in enumerate(m['tables']):
+        if (tb['schema'] or 'public') != 'public' or not re.fullmatch(r'[A-Za-z_][A-Za-z0-9_]*', tb['name']) or tb['name'] in taken \
+                or tb['name'].lower() in ('table', 'note', 'ref', 'enum', 'as', 'indexes', 'project', 'tablegroup', 'notes', 'tables'):
+            continue
+        for a, ta in enumerate(m['tables']):
+            if a != b and not ta['alias']:
+                db.tables[a].alias = tb['name']
+                m2 = copy.deepcopy(m)
+                m2['tables'][a]['alias'] = tb['name']
+                return db, m2
+    return db, m
+
+
 def build_morphed(m: Dict[str, Any], aspects=('names', 'types', 'settings', 'refs'), **db_kwargs):
     """The same final content reached the long way round: a database is built from a DIFFERENT content (other table and
     column names, types, flags, defaults, notes, actions), rendered to SQL and DBML (whatever a renderer or a model object
